@@ -187,22 +187,26 @@ from pysph.sph.wc import linalg
 n = %(n)d
 a = np.array(%(a)r, dtype=float); b = np.array(%(b)r, dtype=float)
 which = %(which)r
-if which == "mat_mult":
-    r = [0.0]*(n*n); linalg.mat_mult(a.tolist(), b.tolist(), n, r)
-    ref = a.reshape(n, n).dot(b.reshape(n, n)).ravel()
-elif which == "mat_vec_mult":
-    r = [0.0]*n; linalg.mat_vec_mult(a.tolist(), b.tolist(), n, r)
-    ref = a.reshape(n, n).dot(b)
-elif which == "dot":
-    r = [linalg.dot(a.tolist(), b.tolist(), n)]; ref = [a.dot(b)]
-elif which == "identity":
-    r = [7.0]*(n*n); linalg.identity(r, n); ref = np.eye(n).ravel()
-elif which == "augmented_matrix":
-    na, nmax = %(na)d, %(nmax)d
-    r = [0.0]*((nmax+na)*n)
-    linalg.augmented_matrix(a.tolist(), b.tolist(), n, na, nmax, r)
-    ref = np.hstack([a.reshape(nmax, nmax)[:n, :n], b.reshape(-1, na)[:n]]).ravel()
-    r = r[:(n+na)*n]
+try:
+  if which == "mat_mult":
+      r = [0.0]*(n*n); linalg.mat_mult(a.tolist(), b.tolist(), n, r)
+      ref = a.reshape(n, n).dot(b.reshape(n, n)).ravel()
+  elif which == "mat_vec_mult":
+      r = [0.0]*n; linalg.mat_vec_mult(a.tolist(), b.tolist(), n, r)
+      ref = a.reshape(n, n).dot(b)
+  elif which == "dot":
+      r = [linalg.dot(a.tolist(), b.tolist(), n)]; ref = [a.dot(b)]
+  elif which == "identity":
+      r = [7.0]*(n*n); linalg.identity(r, n); ref = np.eye(n).ravel()
+  elif which == "augmented_matrix":
+      na, nmax = %(na)d, %(nmax)d
+      r = [0.0]*((nmax+na)*n)
+      linalg.augmented_matrix(a.tolist(), b.tolist(), n, na, nmax, r)
+      ref = np.hstack([a.reshape(nmax, nmax)[:n, :n], b.reshape(-1, na)[:n]]).ravel()
+      r = r[:(n+na)*n]
+except IndexError as e:
+    print(which, "raised", repr(e))
+    sys.exit(common.replay_exit(which + " indexes outside its arrays: %%r" %% (e,)))
 print(which, "got", list(r), "expected", list(ref))
 sys.exit(common.replay_exit(None if np.allclose(np.array(r, dtype=float), ref, rtol=1e-12, atol=1e-12) else which + " differs from its definition"))
 '''
@@ -252,7 +256,10 @@ def unit_helpers(n):
         ref = [sum((a[i] * b[i] for i in range(n)), 0.0)]
         check("dot", r, ref, c, (a[:n], b[:n]))
         r = [real("junk%d" % i) for i in range(n * n)]
-        linalg.identity(r, n)
+        try:
+            linalg.identity(r, n)
+        except IndexError:
+            r = []           # reported as a difference (replay confirms)
         ref = [1.0 if i == j else 0.0 for i in range(n) for j in range(n)]
         check("identity", r, ref, c, (a[:0], b[:0]))
         # augmented matrix: nmax >= n, na in 1..2
